@@ -160,7 +160,8 @@ func c15Child(raw json.RawMessage) any {
 		if dir == "" {
 			dir = os.TempDir()
 		}
-		path := filepath.Join(dir, fmt.Sprintf("c15-%d.json", os.Getpid()))
+		path := filepath.Join(dir, fmt.Sprintf("c15-%d-%d.json", os.Getpid(), time.Now().UnixNano())) // (process ids come round again)
+		_ = os.RemoveAll(path)
 		defer os.Remove(path)
 		content := "{\"0\": {\"checkpoint\": {\"vbuuid\": 1, \"seqno\": 0, \"snapshot\": {\"startSeqno\": 0, \"endSeqno\": 0}}, \"bucketUuid\": \"u\""
 		if sc.FileDump == "partial" {
